@@ -2,9 +2,9 @@ package main
 
 import (
 	"context"
-	"os"
-	"go/types"
 	"fmt"
+	"go/types"
+	"os"
 	"strings"
 
 	"golang.org/x/tools/go/ssa"
